@@ -24,7 +24,7 @@ func init() {
 	Register(&Prop{
 		ID:    "C04",
 		Title: "Storage payments are charged exactly and split without misdirecting tokens",
-		Cases: func(t string) int { return tierN(t, 120, 2000) },
+		Cases: func(t string) int { return tierN(t, 120, 24000) },
 		Run:   runC04,
 		Rule: "case = one history of 8-14 purchases (MsgBuyStorage across the three size tiers and both sides of the one-year switch, for self/other, referral in {none, self, other address, rns name, unresolvable name, blocked module address, garbage}, plan state none/active/expired, payer rich or poor) and pay-once MsgPostFile (expiry below/above a day, far future), under one (ReferralCommission, PolRatio) pair from a grid incl. pol < discount and one price-feed state {absent, 0.2, 0.0001, 1000, garbage, 0}; " +
 			"oracle per transaction from full balance + supply snapshots: failure => nothing moved and plan unchanged; success => debit == price from the keeper's exported price functions on the pre-state (with the statement's referral discount), new gauge escrow funded == recorded coins, POL == floor(D*(pol-discount)%)+-1, referrer or fee collector == floor(D*ref%)+-1, storage module keeps D - credits >= 0, no other account changes, supply unchanged; " +
